@@ -79,7 +79,7 @@ func FuncRef(names ...string) M {
 		}
 		if cc != nil {
 			if cc.IsInvoke() {
-				if set[ifaceMethodQName(cc.Value.Type(), cc.Method)] {
+				if set[ifaceMethodQName(cc.Value.Type(), cc.Method)] || set[ifaceMethodDeclQName(cc.Method)] {
 					return true
 				}
 			} else if isTarget(cc.StaticCallee()) {
